@@ -49,6 +49,14 @@ def run(ctx):
                                          long_runs=(i == 0), extras=(i == 0 or not ctx.thorough))
         ctx = type(ctx)(ctx.tier, ctx.seed + 1)
     res, agg = solverexp.execute(tasks)
+    # Solve with each shipped painting listener attached (they probe the objective and draw through the optimum when
+    # the method stops): the returned Solution / the record must still be those of the search trials
+    from mc import painters
+    from mc.common import pmap
+    ptasks = painters.tasks(ctx.thorough)
+    for t, o in zip(ptasks, pmap(painters.case, ptasks, chunksize=2)):
+        for m in o["c06"]:
+            res.add_violation(dict(driver="painter", **t, message=m, sig={}))
     s = agg["summary"]
     res.cov = dict(
         states=agg["nodes"], transitions=agg["nodes"], traces_validated_against_impl=agg["runs"] + s.get("solve_twins", 0),
@@ -57,7 +65,7 @@ def run(ctx):
         rule="states = distinct answer histories; at each the traversal of the search information is compared with the "
              "evaluation log (order, links, count, lengths, stored points = evolvent image, stored values = answers); "
              "non-trivial = executions with >= 3 distinct trials",
-        exhaustive=True, bounds=solverexp.describe(tasks), resolution_horizon_stops=agg["horizon_stops"],
+        exhaustive=True, painter_runs=len(ptasks), bounds=solverexp.describe(tasks), resolution_horizon_stops=agg["horizon_stops"],
         samples=[dict(cfg=t["cfg"], alphabet=t.get("alphabet"), prefix=t.get("prefix"), depth=t.get("depth"))
                  for t in tasks[:3]],
     )
@@ -66,4 +74,7 @@ def run(ctx):
 
 
 def replay(rec):
+    if rec.get("driver") == "painter":
+        from mc import painters
+        return painters.case(rec)["c06"]
     return solverexp.replay(rec, VIS)
